@@ -14,7 +14,7 @@ and of the layered shallow-water equations:
     i.e. the horizontal derivatives are ANALYTIC (exact polynomial calculus in
     numpy, no spherical-harmonic table, no recurrence of the implementation);
   * the equations are written once over this ring exactly as Model/PrimEqSpec.v
-    writes them over an abstract differential ring (advective form, sigma-dot from
+    writes them over an abstract commutative differential ring (class `Fn` is a concrete model of it) (advective form, sigma-dot from
     the cumulative integrals, kappa T omega/p, -sum dsigma (div + u.grad lnps),
     (zeta+f) k x v, grad(KE + Phi), R Tv grad lnps; documented vertical differences);
   * the modal input state is the analysis (grid.to_modal) of the nodal values of
@@ -31,29 +31,32 @@ from fractions import Fraction
 from harness import util, dyn
 
 THEOREMS = ['C05_rest_isothermal_steady', 'C05_primeq_column_refines_spec', 'C05_primeq_column_refines_spec_moist',
-            'C05_primeq_column_refines_momentum', 'C05_flux_form_is_advective_form_formal', 'C05_operators_formal',
-            'C05_zonal_polynomial_derivative_formal', 'C05_solid_body_steady_formal', 'C05_sw_polynomial_jet_steady_formal',
-            'C05_sw_solid_body_one_layer_formal', 'C05_one_layer_formulas_balanced_formal',
-            'C05_multi_layer_formulas_balanced_formal', 'C05_rest_isothermal_steady_R', 'C05_hyps_satisfiable']
+            'C05_primeq_column_refines_momentum', 'C05_flux_form_is_advective_form', 'C05_operators',
+            'C05_zonal_polynomial_derivative', 'C05_solid_body_steady', 'C05_sw_polynomial_jet_steady',
+            'C05_sw_solid_body_one_layer', 'C05_one_layer_formulas_balanced', 'C05_multi_layer_formulas_balanced',
+            'C05_differential_ring_instance', 'C05_solid_body_steady_series', 'C05_sw_solid_body_series',
+            'C05_rest_isothermal_steady_R', 'C05_hyps_satisfiable']
 LEVEL = 'proof'
 LEVEL_TEXT = ('machine-checked theorems (Coq), every field, every layer count, every level set: the nodal column algebra of '
               'the implementation (explicit + implicit) equals the documented vertical discretisation of the continuous '
               'sigma-coordinate equations term by term; a resting isothermal atmosphere in hydrostatic balance over any '
-              'orography has exactly zero total tendency using only linearity of the horizontal operators; zonal states '
-              'that are functions of mu = sin(lat) in gradient-wind / geostrophic balance have zero tendency of the '
-              'pointwise specification over an abstract differential ring (arbitrary rotation rate, radius, per-layer '
-              'temperatures, uniform humidity, arbitrary polynomial jets, arbitrary density matrices); the formulas of '
+              'orography has exactly zero total tendency using only linearity of the horizontal operators; over an abstract '
+              'commutative differential ring of smooth fields (ring laws, two commuting derivations with the Leibniz rule, '
+              'mu with cos(lat) dmu/dlat = 1 - mu^2) zonal states in gradient-wind / geostrophic balance have zero '
+              'tendency of the specification (arbitrary rotation rate, radius, per-layer temperatures, uniform humidity, '
+              'arbitrary polynomial jets, arbitrary density matrices), with a concrete model of all hypotheses (formal power '
+              'series in mu over Qc, non-zero derivation) in which the balance theorems are instantiated; the formulas of '
               'shallow_water_states.one_layer/multi_layer satisfy the balance identity (for radius 1 and 2*Omega = 1, '
               'which they hard-code). The implementation is tied to the specification by exploration: total tendency '
               'against an independent exact polynomial evaluation of the continuous equations on alias-free states, and '
               'tendency norms of the balanced families')
 LEVEL_NOTE = ('three groups of theorems: (A) rest state on the model with abstract linear transforms, (B) column refinement of '
-              'Model/PrimEq.v against the vertical discretisation of the spec, (C) identities of the pointwise spec over an '
-              'abstract differential ring, suffix _formal: their hypotheses (linearity, Leibniz rule for ALL functions P -> F) are '
-              'consistent only for point types without decidable equality, so no closed instance is exhibited; the same '
-              'identities are executed in the concrete polynomial differential ring of the plugin (table obligations). '
+              'Model/PrimEq.v against the vertical discretisation of the spec, (C) identities of the specification over an '
+              'abstract commutative differential ring (non-vacuity: C05_differential_ring_instance, power series over Qc; the '
+              'instance theorems use functional extensionality). '
               'That analysis of the pointwise spec equals the modal tendency (exactness of products under the transforms) is '
-              'NOT proved for the vorticity/divergence equations: it is decided by exploration (Oracle A). steady_state_jw and '
+              'NOT proved for the vorticity/divergence equations: it is decided by exploration (Oracle A). The moist variant '
+              'of the rest-state theorem is not proved (explored by Oracle B). steady_state_jw and '
               'the barotropic-instability jet are not band-limited and are explored with loose, labelled tolerances; '
               'isothermal_rest_atmosphere over non-flat orography uses a standard-atmosphere formula for the surface pressure '
               'and is only approximately balanced; shallow_water_states.one_layer/multi_layer hard-code radius 1 and 2*Omega = 1')
